@@ -100,6 +100,8 @@ def run(ctx):
     n = 3000 if ctx.tier == "quick" else 200000
     cases = one(ctx, "proxy", "TestVerifC17$", "c17.impl.txt", n, "credential function")
     cases += one(ctx, "contract", "TestVerifC17Adjusted$", "c17adj.impl.txt", n // 5, "contract destination")
+    # several miners, one after the other, through ONE real TCP handler (one configured destination): what the pool is presented with
+    cases += one(ctx, "tcphandlers", "TestVerifC17Handler$", "c17h.impl.txt", 60 if ctx.tier == "quick" else 1500, "name presented by the TCP handler's session")
     n_wire = names_on_the_wire(ctx)
     ops = {}
     distinct = set()
